@@ -220,6 +220,16 @@ def sqlEval : SqlTree → Option SqlVal
             | [.null, _, _] | [_, .null, _] | [_, _, .null] => some .null
             | [.text s, .int st, .int ln] => (substr s st (some ln)).map .text
             | _ => none
+          else if name == sx "COALESCE" then
+            match vs with
+            | [.null, b] => some b
+            | [a, _] => some a
+            | _ => none
+          else if name == sx "REPLACE" then
+            match vs with
+            | [.null, _, _] | [_, .null, _] | [_, _, .null] => some .null
+            | [.text s, .text [c], .text r] => some (.text (s.flatMap (fun x => if x == c then r else [x])))
+            | _ => none
           else none
   | .cast _ _ => none
   | .extract _ _ => none
